@@ -546,8 +546,7 @@ def _diffs(node, got, path=""):
     return out
 
 
-KNOWN_CLASSES = ("null-saved:definition-default-back", "items-stay-str:enum", "items-stay-str:path", "items-stay-str:enum+path",
-                 "str-enum-default:optional-field:exit2", "str-enum-default:falsy-member:KeyError")
+KNOWN_CLASSES = ("null-saved:definition-default-back", "items-stay-str:enum", "items-stay-str:path", "items-stay-str:enum+path")
 
 
 def _findings_step(case, schema, obs):
